@@ -349,7 +349,9 @@ def doc (j : Json) : Json := Id.run do
       | none => ""
   return Json.mkObj [("model", model), ("in_domain", g), ("spec_ok", specOk),
     ("known", Json.arr (if unexplained.isEmpty && g then (knownIds.map Json.str).toArray else #[])),
-    ("why", why), ("nontrivial", g && a.checked > 0)]
+    ("why", why), ("nontrivial", g && a.checked > 0),
+    -- hypothesis of the theorems, evaluated on the real parser's tree (evidence of non-vacuity)
+    ("tree_sound", TreePositionsSound (unitOf e.utf16) text jr)]
 
 def handle (op : String) (j : Json) : Option Json :=
   match op with
